@@ -25,6 +25,8 @@ Theorem C07_sma : forgets_past sma_new sma_next 1 (pmax - 1) (fun n => n).
 Proof. exact (long_past_irrelevant _ _ _ _ _ _ C02_sma sma_local). Qed.
 Theorem C07_wma : forgets_past wma_new wma_next 1 (pmax - 1) (fun n => n).
 Proof. exact (long_past_irrelevant _ _ _ _ _ _ C02_wma wma_local). Qed.
+Theorem C07_swma : forgets_past swma_new swma_next 1 (pmax - 1) (fun n => n).
+Proof. exact (long_past_irrelevant _ _ _ _ _ _ C02_swma swma_local). Qed.
 Theorem C07_lin_reg : forgets_past linreg_new linreg_next 2 (pmax - 1) (fun n => n).
 Proof. exact (long_past_irrelevant _ _ _ _ _ _ C02_lin_reg linreg_local). Qed.
 Theorem C07_st_dev : forgets_past stdev_new stdev_next 2 (pmax - 1) (fun n => n).
